@@ -113,16 +113,65 @@ Qed.
 Theorem validation_off_accepts_all : forall fs, construct fs false = Ok tt.
 Proof. reflexivity. Qed.
 
-(* every edge compatible (a reduced output counting as Array of its element type): never rejected *)
+Lemma edge_param_accepts f g pa :
+  wf (f_ret f) = true ->
+  match f_ms f with Some _ => negb (is_object_array_type (f_ret f)) | None => true end = true ->
+  match snd pa with Some t => wf t | None => true end = true ->
+  forallb edge_sub (spec_edges_of f g pa) = true ->
+  match snd pa with
+  | None => true
+  | Some t => if str_eqb (fst pa) (f_out f) then edge_ok f g (fst pa) t else true
+  end = true.
+Proof.
+  intros Wr Ho Wt. unfold spec_edges_of. destruct pa as [p [t|]]; simpl in *; [|reflexivity].
+  destruct (str_eqb p (f_out f)); [|reflexivity]. simpl.
+  unfold edge_ok, edge_types. rewrite internal_shape_spec.
+  destruct (has_internal_axis f p); [reflexivity|]. simpl. rewrite andb_true_r.
+  rewrite reduced_spec. unfold edge_sub. simpl.
+  assert (Hobj : mapped_output f p = true -> is_object_array_type (f_ret f) = false).
+  { unfold mapped_output. destruct (f_ms f); [|discriminate]. intros _. destruct (is_object_array_type (f_ret f)); [discriminate|reflexivity]. }
+  destruct (mapped_output f p) eqn:Hm.
+  - rewrite (Hobj eq_refl). simpl.
+    destruct (takes_whole g p), (is_unres (f_ret f)), (is_noann (f_ret f)); simpl; intros E;
+      apply compat_complete; auto; apply subb_iff_sub; exact E.
+  - simpl. intros E. apply compat_complete; auto. apply subb_iff_sub. exact E.
+Qed.
+
+Lemma guard_accept_inv fs : pipe_guard_accept fs = true ->
+  forall f, In f fs ->
+    wf (f_ret f) = true
+    /\ match f_ms f with Some _ => negb (is_object_array_type (f_ret f)) | None => true end = true
+    /\ forall pa, In pa (f_params f) -> match snd pa with Some t => wf t | None => true end = true.
+Proof.
+  unfold pipe_guard_accept. intros H f Hf. apply andb_prop in H. destruct H as [H1 H3].
+  rewrite forallb_forall in H1, H3. specialize (H1 f Hf). specialize (H3 f Hf).
+  unfold fn_wf in H1. apply andb_prop in H1. destruct H1 as [H1 H1']. rewrite forallb_forall in H1'. auto.
+Qed.
+
+Lemma pipe_guard_accept_of fs : pipe_guard fs = true -> pipe_guard_accept fs = true.
+Proof.
+  unfold pipe_guard, pipe_guard_accept. intros H. apply andb_prop in H. destruct H as [H H3].
+  apply andb_prop in H. destruct H as [H1 _]. rewrite H1, H3. reflexivity.
+Qed.
+
+(* every edge compatible (a reduced output counting as Array of its element type): never rejected;
+   TypeVars are allowed here (the code is complete for them) *)
 Theorem edges_ok_accepts : forall fs,
-  pipe_guard fs = true ->
+  pipe_guard_accept fs = true ->
   (forall e, In e (spec_edges fs) -> sub (fst e) (snd e)) ->
   construct fs true = Ok tt.
 Proof.
-  intros fs G H. simpl. pose proof (validate_types_spec fs G) as E.
+  intros fs G H. simpl.
   assert (F : forallb edge_sub (spec_edges fs) = true).
   { apply forallb_forall. intros e He. apply subb_iff_sub. auto. }
-  rewrite F in E. destruct (validate_types fs) as [[]|]; [reflexivity|discriminate].
+  rewrite spec_edges_eq, forallb_flat_map in F. rewrite forallb_forall in F.
+  unfold validate_types.
+  replace (forallb _ fs) with true; [reflexivity|]. symmetry.
+  apply forallb_forall. intros f Hf. specialize (F f Hf). rewrite forallb_flat_map in F. rewrite forallb_forall in F.
+  destruct (guard_accept_inv fs G f Hf) as (Wr & Ho & _).
+  apply forallb_forall. intros g Hg. specialize (F g Hg). rewrite forallb_flat_map in F. rewrite forallb_forall in F.
+  destruct (guard_accept_inv fs G g Hg) as (_ & _ & Wp).
+  apply forallb_forall. intros pa Hpa. apply edge_param_accepts; auto.
 Qed.
 
 (* an incompatible edge: rejected with TypeError at construction *)
